@@ -3,10 +3,14 @@
 from __future__ import annotations
 
 import ast
+import re
 
 from ..cfg import Node, walk_no_nested
+from ..constfold import Folder, RegexConst, Unknown
 from ..dataflow import bind_call, chain_key, fmt_origin, origins
+from ..decide import Decider, role_of
 from ..loader import AnalysisError, ConstInfo, FuncInfo
+from ..regexlang import Regex, included
 from ..report import Ctx
 from ..taint import Taint
 from .common import all_guards, call_name, direct_guards, norm, reachable_functions, where
@@ -39,6 +43,22 @@ def check_no_layout_reads(ctx: Ctx) -> None:
            where(hits[0][0], hits[0][1]) if hits else "")
 
 
+_WS_CACHE: dict[tuple[str, int], bool] = {}
+
+
+def _is_whitespace_run(pattern: str, flags: int) -> bool:
+    """Is the language of `pattern` exactly "one or more whitespace characters" (the language of \\s+)?"""
+    key = (pattern, flags)
+    if key not in _WS_CACHE:
+        try:
+            a = Regex(pattern, flags).glushkov()
+            b = Regex(r"\s+", 0).glushkov()
+            _WS_CACHE[key] = included(a, [b]) is None and included(b, [a]) is None
+        except (ValueError, re.error):
+            _WS_CACHE[key] = False
+    return _WS_CACHE[key]
+
+
 def _normalising_call(prog, fi: FuncInfo, c: ast.Call, depth: int = 0) -> bool:
     """re.sub(r'\\s+', ' ', x) / x.split() / a repo function all of whose returns are normalised."""
     nm = call_name(prog, fi, c)
@@ -47,6 +67,19 @@ def _normalising_call(prog, fi: FuncInfo, c: ast.Call, depth: int = 0) -> bool:
         return True
     if isinstance(c.func, ast.Attribute) and c.func.attr == "split" and not c.args and not c.keywords:
         return True
+    if nm == "re.sub" and len(c.args) >= 2 and isinstance(c.args[0], ast.Constant) and isinstance(c.args[0].value, str) \
+            and isinstance(c.args[1], ast.Constant) and c.args[1].value == " " and _is_whitespace_run(c.args[0].value, 0):
+        return True
+    if isinstance(c.func, ast.Attribute) and c.func.attr == "sub" and c.args and isinstance(c.args[0], ast.Constant) and c.args[0].value == " ":
+        # PATTERN.sub(" ", text) with PATTERN a compiled module constant
+        r = prog.repo.resolve_expr(c.func.value, fi.module, fi)
+        if isinstance(r, ConstInfo):
+            try:
+                v = Folder(prog.repo).const(r.qual)
+            except Unknown:
+                v = None
+            if isinstance(v, RegexConst) and _is_whitespace_run(v.pattern, v.flags):
+                return True
     t = prog.resolve_call(fi, c)
     if isinstance(t, list) and depth < 3:
         callee = t[0]
@@ -201,42 +234,31 @@ def check_decorator_stack(ctx: Ctx) -> None:
     tn = repo.func(f"{TH}:add_tag_newline_handling")
     for q in (f"{LW}:line_wrap_to_width", f"{LW}:line_wrap_by_sentence"):
         fac = repo.func(q)
-        flow = prog.flow(fac)
         base = next(f for f in fac.local_defs.values() if isinstance(f, FuncInfo))
-        ok_md, ok_plain = False, False
-        for r in flow.cfg.returns():
-            guards = direct_guards(prog, fac, r)
-            md = [g for g in guards if g[2] == frozenset({("param", "is_markdown")})]
-            v = r.ast.value
-            if md and md[0][1] == "T":
-                # return hard_break(enhanced) with enhanced = tag_newline(base)
-                stack = []
-                cur: ast.AST | None = v
-                node = r
-                for _ in range(4):
-                    if isinstance(cur, ast.Name):
-                        defs = flow.reaching(node, cur.id)
-                        if len(defs) == 1 and defs[0].kind == "assign":
-                            cur, node = defs[0].value, defs[0].node
-                            continue
-                        if len(defs) == 1 and defs[0].kind == "def":
-                            stack.append("base:" + cur.id)
-                            break
-                    if isinstance(cur, ast.Call) and len(cur.args) == 1:
-                        t = prog.resolve_call(fac, cur)
-                        stack.append(t[0].qual if isinstance(t, list) else norm(cur.func))
-                        cur = cur.args[0]
-                        continue
-                    break
-                ok_md = stack == [hb.qual, tn.qual, "base:" + base.name]
-                ctx.ob("R-LAYOUT-Y4", f"{q} :: Markdown decorator stack", ok_md,
-                       f"in Markdown mode the wrapper must be hard_break(tag_newline(base)) on both factories; found {stack}", where(fac, r))
-            elif md and md[0][1] == "F":
-                ok_plain = isinstance(v, ast.Name) and v.id == base.name
-                ctx.ob("R-LAYOUT-Y4", f"{q} :: plain mode returns the base wrapper", ok_plain,
-                       "without is_markdown the undecorated base wrapper is returned", where(fac, r))
-        if not ok_md:
-            ctx.ob("R-LAYOUT-Y4", f"{q} :: Markdown decorator stack present", ok_md, "no return under `if is_markdown` builds the decorator stack", where(fac, fac.node))
+        res: dict[bool, frozenset] = {}
+        for md in (True, False):
+            def atom(leaf: ast.AST, aliases: frozenset, md=md) -> bool | None:
+                return md if "md" in role_of(leaf, aliases) else None
+
+            def value_leaf(cur: FuncInfo, e: ast.AST, aliases: frozenset):
+                return "BASE" if isinstance(e, ast.Name) and "base" in role_of(e, aliases) else None
+
+            dec = Decider(prog, atom, value_leaf=value_leaf, symbolic={hb.qual, tn.qual})
+            res[md] = dec.func_outcomes(fac, frozenset({"md=is_markdown", f"base={base.name}"}))
+        want = ("call", hb.qual, ("call", tn.qual, "BASE"))
+        ctx.ob("R-LAYOUT-Y4", f"{q} :: Markdown decorator stack", res[True] == frozenset({want}),
+               f"in Markdown mode the wrapper must be hard_break(tag_newline(base)) on both factories; with is_markdown=True the factory returns {_fmt_stack(res[True])}",
+               where(fac, fac.node))
+        ctx.ob("R-LAYOUT-Y4", f"{q} :: plain mode returns the base wrapper", res[False] == frozenset({"BASE"}),
+               f"without is_markdown the undecorated base wrapper is returned; the factory returns {_fmt_stack(res[False])}", where(fac, fac.node))
+
+
+def _fmt_stack(vals) -> str:
+    def one(v) -> str:
+        if isinstance(v, tuple) and len(v) == 3 and v[0] == "call":
+            return f"{v[1].split(':')[-1]}({one(v[2])})"
+        return str(v)
+    return "{" + ", ".join(sorted(one(v) for v in vals)) + "}"
 
 
 def check_hard_break_decorator(ctx: Ctx) -> None:
